@@ -10,7 +10,6 @@ returns the assignments to `peng`/`taux`/`cod`/`subject` in program order; `Heap
 
 FRAGMENT.  `none` = outside the modelled fragment:
 * a Phrase with a Dependent child or a Dependent with a non-Dependent child / without terminal;
-* French `A("quelques")` inside an NP/AP/AdvP (`self.peng = "p"`: a string replaces the record);
 * a `mod`/`comp` dependent whose terminal is a relative pronoun of `relative_pronouns_propagate`
   (`setPengRecursive`).
 Everything else of the two functions is mirrored, for every kind of Phrase (NP, VP, PP, AP, AdvP, CP, S, SP) and of
@@ -73,7 +72,8 @@ abbrev Plan := Option (List Act)
 
 def isPP (h : Heap) (e : Nat) : Bool := h.kind e = .V && h.getProp e Heap.tKey == ppVal
 
-/-- `Phrase.linkPengWithSubject(phrase, terminal, subject)` on `self`; the subject's record is `src`
+/-- `Phrase.linkPengWithSubject(phrase, terminal, subject)` on `self` (Phrase.py; `if not hasattr(subject,"peng"): return None`
+    is rendered by non-strict assignments: every call site is behind a test that the subject has a `peng`); the subject's record is `src`
     (Python reads `dyn.peng`).  Returns the assignments and `pt`. -/
 def linkPengWithSubject (h : Heap) (self : Nat) (phrase terminal : Kind) (subject : Nat) (dyn : Nat) :
     List Act × Option Nat :=
@@ -81,11 +81,11 @@ def linkPengWithSubject (h : Heap) (self : Nat) (phrase terminal : Kind) (subjec
   else match h.getFromPath self [([phrase], false), ([terminal], false)] with
     | some pt =>
       match h.parentOf pt with
-      | some pp => ([.setPeng true pp dyn, .setPeng true pt dyn], some pt)
-      | none => ([.setPeng true pt dyn, .crash .attributeError].drop 1, some pt)
+      | some pp => ([.setPeng false pp dyn, .setPeng false pt dyn], some pt)
+      | none => ([.crash .attributeError], some pt)
     | none =>
       match h.getFromPath self [([terminal], false)] with
-      | some pt => ([.setPeng true pt dyn], some pt)
+      | some pt => ([.setPeng false pt dyn], some pt)
       | none => ([], none)
 
 /-- `PhraseFr.linkAttributes(vpv, vpcp, subject)` (PhraseFr.py:41-70); the English one is `pass` -/
@@ -131,7 +131,7 @@ def linkDAV (h : Heap) (lang : Lang) (self : Nat) (e : Nat) : Plan :=
     else if h.kind e = .A || (h.kind e = .D && !h.hasProp e ownKey) then some [.setPeng true e self]
     else some []
   | .fr =>
-    if h.kind e = .A && h.lemmaOf e = s "quelques" then none
+    if h.kind e = .A && h.lemmaOf e = s "quelques" then some [.writeN true self (.s ['p'])]
     else if h.kind e = .A || h.kind e = .D then some [.setPeng true e self]
     else if isPP h e then some [.setPeng true e self]
     else some []
@@ -161,7 +161,7 @@ def linkSubjObjSubordinate (h : Heap) (lang : Lang) (p : Nat) (pro v : Nat) (sub
   let vpcp := h.getFromPath p [([.VP], false), ([.CP], false)]
   match lang with
   | .en =>
-    if relProsEn.contains (h.lemmaOf pro) then
+    if relProsEn.contains (h.lemmaOf pro) && (subject == none || subject == some pro) then
       [.setPeng true v p] ++ linkAttributes h .en v vpcp p p
     else []
   | .fr =>
@@ -217,17 +217,16 @@ def planNP (h : Heap) (p : Nat) : Plan :=
           match h.getFromPath sp [([.VP], false), ([.V], false)] with
           | none => []
           | some v =>
-            match h.subject sp with
-            | none => [.crash .attributeError]
-            | some subject => linkSubjObjSubordinate h lang p pro v subject
+            -- `getattr(pro.parentConst,"subject",None)`: a missing attribute reads as None
+            linkSubjObjSubordinate h lang p pro v (match h.subject sp with | none => none | some subject => subject)
     Plan.cat ([some [.guardHas hd, .setPeng true p hd]] ++ perChild ++ [some rel])
 
-/-- VP branch (Phrase.py:170-175) -/
+/-- VP branch (Phrase.py:170-176): `if hasattr(head_elem,"peng"): self.peng = head_elem.peng` -/
 def planVP (h : Heap) (p : Nat) : Plan :=
   let hi := (h.getIndex p [.VP, .V]).getD 0
   match (h.kids p)[hi]? with
   | none => some []
-  | some hd => some [.setPeng true p hd, .setTaux false p hd]
+  | some hd => some [.setPeng false p hd, .setTaux false p hd]
 
 /-- AdvP / PP / AP branch (Phrase.py:176-179) -/
 def planXP (h : Heap) (p : Nat) (termKind : Kind) : Plan :=
@@ -287,13 +286,18 @@ def planS (h : Heap) (p : Nat) : Plan :=
                 linkAttributes h lang v (h.getFromPath p [([.VP], false), ([.CP], false)]) subject subject
             | none =>
               let cvs : List Act :=
-                match h.getFromPath p [([.CP], false), ([.VP], false)] with
-                | none => []
-                | some _ =>
-                  match h.getConst p [.CP] with
-                  | none => []
-                  | some cp => (h.kids cp).flatMap (fun e =>
-                      if (h.kind e).isPhrase then (linkPengWithSubject h e .VP .V subject subject).1 else [])
+                -- every CP other than the subject that contains a VP: each phrase element is linked to the subject,
+                -- and the attributes of its verb too
+                els.flatMap (fun cp =>
+                  if h.kind cp = .CP && cp != subject && (h.getConst cp [.VP]).isSome then
+                    (h.kids cp).flatMap (fun e =>
+                      if (h.kind e).isPhrase then
+                        let (la, v) := linkPengWithSubject h e .VP .V subject subject
+                        la ++ (match v with
+                          | some v => linkAttributes h lang v (h.getFromPath e [([.CP], false)]) subject subject
+                          | none => [])
+                      else [])
+                  else [])
               let cco : List Act :=
                 match lang with
                 | .en => []
@@ -310,7 +314,7 @@ def planS (h : Heap) (p : Nat) : Plan :=
                     | none => []
                   | _, _ => []
               cvs ++ cco
-          some (pre ++ sacts ++ [.setPeng true p subject] ++ lacts ++ tail)
+          some (pre ++ sacts ++ [.guardHas subject, .setPeng true p subject] ++ lacts ++ tail)
 
 /-- `Phrase.linkProperties` -/
 def planPhrase (h : Heap) (p : Nat) : Plan :=
@@ -447,7 +451,7 @@ def planDep (h : Heap) (p : Nat) : Plan :=
       match planDepLoop h p headTerm deps with
       | none => none
       | some acts =>
-        some ((if h.kind p = .coord then [.fresh p false, .setPeng true headTerm p] else []) ++ acts)
+        some ((if h.kind p = .coord then [.fresh p true, .setPeng true headTerm p] else []) ++ acts)
 
 /-- `x.linkProperties()` -/
 def plan (h : Heap) (p : Nat) : Plan :=
